@@ -17,6 +17,8 @@ type netEdge struct {
 	From, To int // node indexes in topological order (sensors first, then hidden, outputs last)
 	W        float64
 	Back     bool // the edge goes against the order (cycles)
+	Delayed  bool // the link is time delayed (Link.IsTimeDelayed; only the network API can express it, genes can not)
+	RecFlag  bool // a forward edge which merely carries the recurrent label (as a gene flagged recurrent does); no cycle
 }
 
 type netSpec struct {
@@ -52,6 +54,8 @@ type netGenOpts struct {
 	acts                           []neatmath.NodeActivationType
 	reachable                      bool // every neuron gets a predecessor (so it is reachable from a sensor)
 	backEdges                      int  // number of edges against the order (cycles, self-loops)
+	flagForward                    float64 // probability that a forward edge carries the recurrent label
+	timeDelayed                    float64 // probability that a link is time delayed
 }
 
 // genNet draws random layered graph; sensors [0,ns), hidden [ns,ns+nHid), outputs after; forward edges go from lower to
@@ -71,7 +75,8 @@ func genNet(r *rand.Rand, o netGenOpts) *netSpec {
 			return
 		}
 		has[[2]int{u, v}] = true
-		s.Edges = append(s.Edges, netEdge{From: u, To: v, W: w(), Back: back})
+		s.Edges = append(s.Edges, netEdge{From: u, To: v, W: w(), Back: back, RecFlag: !back && o.flagForward > 0 && r.Float64() < o.flagForward,
+			Delayed: o.timeDelayed > 0 && r.Float64() < o.timeDelayed})
 	}
 	for v := ns; v < total; v++ {
 		s.Acts[v] = o.acts[r.Intn(len(o.acts))]
@@ -125,7 +130,8 @@ func (s *netSpec) build() *network.Network {
 	}
 	for _, e := range s.Edges {
 		l := nodes[e.To].ConnectFrom(nodes[e.From], e.W)
-		l.IsRecurrent = e.Back
+		l.IsRecurrent = e.Back || e.RecFlag
+		l.IsTimeDelayed = e.Delayed
 	}
 	return network.NewNetwork(in, out, nodes, 1)
 }
@@ -152,7 +158,7 @@ func (s *netSpec) genome() *genetics.Genome {
 	}
 	genes := make([]*genetics.Gene, len(s.Edges))
 	for i, e := range s.Edges {
-		genes[i] = genetics.NewGeneWithTrait(tr, e.W, nodes[e.From], nodes[e.To], e.Back, int64(i+1), e.W)
+		genes[i] = genetics.NewGeneWithTrait(tr, e.W, nodes[e.From], nodes[e.To], e.Back || e.RecFlag, int64(i+1), e.W)
 	}
 	return genetics.NewGenome(1, []*neat.Trait{tr}, nodes, genes)
 }
@@ -254,4 +260,80 @@ func (s *netSpec) full() map[string]interface{} {
 		acts[i], _ = neatmath.NodeActivators.ActivationNameFromType(a)
 	}
 	return map[string]interface{}{"inputs": s.NIn, "bias": s.NBias, "hidden": s.NHid, "outputs": s.NOut, "edges": edges, "activations_by_node": acts}
+}
+
+// netModule a MIMO module laid over the nodes of a netSpec: control node with inputs and one output (the module
+// activators of the library return one value)
+type netModule struct {
+	Ins []int // node indexes
+	Out int
+	Act neatmath.NodeActivationType
+}
+
+// genModules draws 1-3 modules; inputs among sensors / hidden nodes, the output a hidden or output node behind them. Two
+// modules may share an input node.
+func genModules(r *rand.Rand, s *netSpec) []netModule {
+	var mods []netModule
+	ns := s.sensors()
+	if s.NHid == 0 {
+		return nil
+	}
+	n := 1 + r.Intn(3)
+	for k := 0; k < n; k++ {
+		m := netModule{Act: pick(r, neatmath.MultiplyModuleActivation, neatmath.MaxModuleActivation, neatmath.MinModuleActivation)}
+		cnt := 1 + r.Intn(2)
+		maxIn := 0
+		for i := 0; i < cnt; i++ {
+			u := r.Intn(ns + s.NHid)
+			if k > 0 && r.Intn(3) == 0 {
+				u = mods[0].Ins[0] // shared with the first module
+			}
+			dup := false
+			for _, x := range m.Ins {
+				dup = dup || x == u
+			}
+			if dup {
+				continue
+			}
+			m.Ins = append(m.Ins, u)
+			if u > maxIn {
+				maxIn = u
+			}
+		}
+		lo := maxIn + 1
+		if lo < ns {
+			lo = ns
+		}
+		if lo >= s.total() {
+			continue
+		}
+		m.Out = lo + r.Intn(s.total()-lo)
+		mods = append(mods, m)
+	}
+	return mods
+}
+
+// buildModular constructs the network of the spec with the modules laid over it
+func (s *netSpec) buildModular(mods []netModule) *network.Network {
+	base := s.build()
+	nodes := base.BaseNodes()
+	var in, out []*network.NNode
+	for i, nd := range nodes {
+		if i < s.sensors() {
+			in = append(in, nd)
+		} else if s.isOutput(i) {
+			out = append(out, nd)
+		}
+	}
+	var control []*network.NNode
+	for k, m := range mods {
+		cn := network.NewNNode(s.total()+1+k, network.HiddenNeuron)
+		cn.ActivationType = m.Act
+		for _, u := range m.Ins {
+			cn.Incoming = append(cn.Incoming, network.NewLink(1.0, nodes[u], cn, false))
+		}
+		cn.Outgoing = append(cn.Outgoing, network.NewLink(1.0, cn, nodes[m.Out], false))
+		control = append(control, cn)
+	}
+	return network.NewModularNetwork(in, out, nodes, control, 1)
 }
